@@ -58,3 +58,9 @@ BENIGN = [
         (P, "    encs: &Vec<[u8; SHARED_SECRET_LENGTH]>,\n) -> Result<Option<Secret<SHARED_SECRET_LENGTH>>, Error> {\n    let T = {\n        let mut hasher = Sha3::v256();\n        let mut T = Secret::<SHARED_SECRET_LENGTH>::new();\n        c.iter().try_for_each(|ck| {\n            hasher.update(&ck.serialize()?);\n            Ok::<_, Error>(())\n        })?;\n        hasher.finalize(&mut *T);\n        T\n    };\n\n    let U = {\n        let mut U = Secret::<SHARED_SECRET_LENGTH>::new();\n        let mut hasher = Sha3::v256();\n        hasher.update(&*T);\n        encs.iter().for_each(|F| hasher.update(F));\n        hasher.finalize(&mut *U);\n        U\n    };\n",
             "    encs: &Vec<[u8; SHARED_SECRET_LENGTH]>,\n) -> Result<Option<Secret<SHARED_SECRET_LENGTH>>, Error> {\n    let T = classic_t(c)?;\n    let U = digest_u(&T, encs.iter());\n")]},
 ]
+
+# behaviour-preserving refactorings written by independent sub-agents (selftest/benign_patches/*.diff,
+# each confirmed by the agent to keep the 33 tests green); every check must stay quiet on them
+import glob as _glob, os as _os
+for _p in sorted(_glob.glob(_os.path.join(_os.path.dirname(_os.path.abspath(__file__)), 'benign_patches', '*.diff'))):
+    BENIGN.append({'id': 'A-' + _os.path.basename(_p)[:-5], 'patch_abs': _p})
